@@ -9,5 +9,21 @@ CHECKS = {
    note="Trusted: TLC, the driver harness/bmdrv.c, hook H2 (read-only dump). rbtree.c balancing is not modelled (only the in-order content). "
         "Bulk get/set and arguments follow the preconditions in-tree callers satisfy (byte alignment, in-range). Histories are sampled (seeded), the model is exhaustive only at small range.",
    technique="TLA+ refinement model checking (TLC) + trace validation of real-library histories against the same spec"),
+ "C07": dict(level="model_checking",
+   text="TLC evaluates Geometry.tla (transcription of ext2fs_initialize's geometry arithmetic, retry loops and ext2fs_bg_has_super) over a lattice of ~12k configurations and checks the "
+        "arithmetic invariants; the real mke2fs is then run on a universe of option combinations and boundary sizes and every run is a trace line validated by TLC (Trace_Geometry): an accepted "
+        "configuration must have exactly the geometry Geometry!Compute predicts (read back by an independent superblock parser), backups exactly at BgHasSuper, the requested features, "
+        "e2fsck -fn = 0, Consistent by the independent reader, no device write under -n (syscall recorder) and byte-identical output on a second run.",
+   note="Trusted: TLC, lib/sbparse.py (independent superblock parser), reader/ext4read.py + Ext4Abs.Consistent when present, iotrace.so. bigalloc geometry arithmetic is not modelled "
+        "(those configurations get the consistency, -n and reproducibility clauses only). Journal size/location, RAID and offset options are not varied yet. Universe is sampled in quick, enumerated in thorough.",
+   technique="TLA+ spec of the geometry arithmetic model-checked with TLC + trace validation of real mke2fs runs against it"),
+ "C08": dict(level="model_checking",
+   text="Crash clause: ResizeCrash.tla models the device (durable state + writes pending until fsync, any subset lost at a crash) and states CrashInvariant (a visible modification outside the primary "
+        "superblock implies the error flag in every crash image); every real resize2fs run (14 profiles x grow/shrink/-M targets) is recorded at system-call level, classified against a shadow image "
+        "and validated by TLC with the invariant evaluated on every prefix; thorough rebuilds sampled crash images and runs the real e2fsck -p on them. Main clause (Tree/Consistent/size) is "
+        "evaluated through the independent reader when present.",
+   note="Trusted: TLC, iotrace.so recorder (checked per run: replaying the recorded payloads must reproduce the final image), the classification rule (bytes beyond the old filesystem end are not "
+        "part of the filesystem; superblock-internal writes other than s_state are not modifications). 32/64-bit conversion (-b/-s) not exercised yet.",
+   technique="TLA+ device/crash model checked with TLC + trace validation of recorded resize2fs write streams; fault enumeration of crash images on the real e2fsck"),
 }
 NA = {}
